@@ -53,7 +53,7 @@ EDGE_EPS = 1e-3          # |t - detector end| below which np.interp(left=0,right
 
 PRE = r"""From QV.lib Require Import Prelude.
 From QV.model Require Import C07_Model.
-From Coq Require Import QArith Qround.
+From Coq Require Import QArith Qround Qabs.
 Local Open Scope Q_scope.
 (* harness glue: integer tables with a common denominator -> the model's function types *)
 Definition ztab (den : positive) (l : list Z) : Z -> Q :=
@@ -109,6 +109,23 @@ Definition probe_sk (nm : fname) (size : Z) :=
   probe (fun k s c n r => sk_filter s c n (fun _ _ => r) nm size k)
         (fun k s c n => sk_window s c n nm size k) (sk_window_arg nm size) size.
 Definition kern (l : list (Q * Q)) := map (fun ab => (qz (fst ab), qz (snd ab))) l.
+(* whole-model comparison INSIDE Coq: the model sinograms (exact Q; the sampler is `bilinear` on Qred-normalised
+   coordinates, Qred q == q) against the implementation's values; only booleans and the largest deviation
+   (2^-60 fixed point, rounded up) are printed *)
+Definition bilred : sampler := fun n img x y => bilinear n img (Qred x) (Qred y).
+Definition qmaxl (l : list Q) : Q := fold_right (fun v a => if Qle_bool a v then v else a) 0 l.
+Definition maxerr (a b : list (list Q)) : Q :=
+  qmaxl (map (fun rr => qmaxl (map (fun p => Qred (Qabs (fst p - snd p))) (combine (fst rr) (snd rr)))) (combine a b)).
+Definition shape_ok (a b : list (list Q)) : bool :=
+  (length a =? length b)%nat && forallb (fun rr => (length (fst rr) =? length (snd rr))%nat) (combine a b).
+Definition q60 (q : Q) : Z := Qceiling (q * iz (2 ^ 60)).
+Definition radcmp (n : Z) (den : positive) (rows : list (list Z)) (pangs sangs : list (Q * Q))
+  (pimpl simpl : list (list Q)) (mask : list (list bool)) :=
+  let img := ztab2 den rows in
+  let mp := port_sinogram repaired bilred img n pangs in
+  let ms := sk_sinogram bilred (disc_mask n img) n sangs in
+  (shape_ok mp pimpl && shape_ok ms simpl, q60 (maxerr mp pimpl), q60 (maxerr ms simpl),
+   if list_eq_dec (list_eq_dec Bool.bool_dec) (dmask n) mask then true else false).
 """
 
 Q40 = float(1 << 40)
@@ -178,9 +195,29 @@ def make_theta(kind, A, seed):
         th = np.sort(g.uniform(0.0, 180.0, A))
     elif kind == "unsorted":
         th = g.uniform(0.0, 180.0, A)
+    elif kind == "repeated":            # repeated angles, not sorted
+        base = g.uniform(0.0, 180.0, max(1, (A + 1) // 2))
+        th = base[g.integers(0, len(base), A)]
+    elif kind == "random64":            # float64 tensor, NOT float32-representable
+        return np.sort(g.uniform(0.0, 180.0, A))
+    elif kind == "integers":            # int64 tensor
+        return g.integers(0, 181, A).astype(np.float64)
+    elif kind == "outside":             # outside the property's domain [0, 180]: recorded only
+        th = g.uniform(-180.0, 540.0, A)
     else:
         raise ValueError(kind)
     return np.asarray(th, dtype=np.float32).astype(np.float64)
+
+
+# the tensor dtype in which an angle kind is handed to the port (default float32)
+THETA_DTYPE = {"random64": "float64", "integers": "int64"}
+
+
+def theta_dtype(case):
+    return THETA_DTYPE.get(case.get("theta_kind"), "float32")
+
+
+F64_FACTOR = 1.0000001234      # makes a float32 array a genuinely float64 one
 
 
 def make_sino(kind, N, theta, seed):
@@ -216,15 +253,15 @@ def make_sino(kind, N, theta, seed):
 # running both implementations
 
 
-def t_theta(theta):
+def t_theta(theta, dtype="float32"):
     torch = _mods()[0]
-    return None if theta is None else torch.tensor(np.asarray(theta), dtype=torch.float32)
+    return None if theta is None else torch.tensor(np.asarray(theta), dtype=getattr(torch, dtype))
 
 
-def run_radon_port(img32, theta):
+def run_radon_port(img32, theta, tdtype="float32"):
     """-> [B, A, n] float64 (B = 1 for a 2-D image)"""
     torch, _, _, _, port = _mods()
-    out = port.radon_torch(torch.from_numpy(np.ascontiguousarray(img32)), theta=t_theta(theta))
+    out = port.radon_torch(torch.from_numpy(np.ascontiguousarray(img32)), theta=t_theta(theta, tdtype))
     arr = out.detach().cpu().numpy().astype(np.float64)
     B = 1 if img32.ndim == 2 else img32.shape[0]
     A = 180 if theta is None else len(theta)
@@ -240,10 +277,10 @@ def run_radon_sk(img32, theta):
         return radon(img32.astype(np.float64) * disc(n), theta=theta, circle=True).T
 
 
-def run_iradon_port(sino32, theta, filt, circle=True, out=None):
+def run_iradon_port(sino32, theta, filt, circle=True, out=None, tdtype="float32"):
     """sino32 [A, N] or [B, A, N] -> [B, out, out] float64"""
     torch, _, _, _, port = _mods()
-    r = port.iradon_torch(torch.from_numpy(np.ascontiguousarray(sino32)), theta=t_theta(theta), filter_name=filt,
+    r = port.iradon_torch(torch.from_numpy(np.ascontiguousarray(sino32)), theta=t_theta(theta, tdtype), filter_name=filt,
                           circle=circle, output_size=out)
     arr = r.detach().cpu().numpy().astype(np.float64)
     B = 1 if sino32.ndim == 2 else sino32.shape[0]
@@ -303,9 +340,15 @@ def well_conditioned(N, theta, circle, out):
 def oracle_radon(case):
     n, theta = case["n"], make_theta(case["theta_kind"], case["A"], case["seed"])
     img = make_image(case["img_kind"], n, case["seed"])
+    f64 = case.get("dtype") == "float64"
+    if f64:
+        img = img.astype(np.float64) * F64_FACTOR
     try:
-        got = run_radon_port(img, theta)[0]
+        got = run_radon_port(img, theta, theta_dtype(case))[0]
     except Exception as e:  # noqa
+        if f64:
+            return ("radon-raises-float64-image", "radon_torch raised %r on a float64 %dx%d image tensor (scikit-image's "
+                    "radon accepts it; the same image as float32 works)" % (e, n, n), {})
         return ("radon-raises", "radon_torch raised %r on a %dx%d image" % (e, n, n), {})
     ref = run_radon_sk(img, theta)
     if got.shape != ref.shape:
@@ -355,6 +398,14 @@ def oracle_radon_batch(case):
                     "radon_torch on a batch of %d %dx%d images differs from the per-image call for image %d "
                     "(%s angles %s): max difference %.3g" % (B, n, n, b, case["theta_kind"], _short_theta(theta), err),
                     {"err": err})
+        # ... and the batch entry is scikit-image's sinogram of THAT image (different images per entry)
+        ref = run_radon_sk(imgs[b], theta)
+        err = float(np.abs(got[b] - ref).max())
+        if not err <= RADON_RTOL * scale:
+            return ("radon-batched-vs-skimage",
+                    "entry %d of radon_torch on a batch of %d different %dx%d images differs from skimage.transform.radon "
+                    "of that image (%s angles %s): max difference %.3g" % (b, B, n, n, case["theta_kind"],
+                                                                           _short_theta(theta), err), {"err": err})
     return None
 
 
@@ -399,10 +450,14 @@ def oracle_iradon(case):
     N, filt, circle, out = case["N"], case["filter"], case["circle"], case.get("out")
     theta = make_theta(case["theta_kind"], case["A"], case["seed"])
     s = make_sino(case["sino_kind"], N, theta, case["seed"])
+    tdt = theta_dtype(case)
+    if case.get("dtype") == "float64":
+        s = s.astype(np.float64) * F64_FACTOR
     try:
-        got = run_iradon_port(s, theta, filt, circle, out)[0]
+        got = run_iradon_port(s, theta, filt, circle, out, tdt)[0]
     except Exception as e:  # noqa
-        return ("iradon-raises", "iradon_torch raised %r (N=%d, filter %r)" % (e, N, filt), {})
+        return ("iradon-raises", "iradon_torch raised %r (N=%d, filter %r, %s sinogram, %s angles)"
+                % (e, N, filt, case.get("dtype", "float32"), tdt), {})
     ref = run_iradon_sk(s, theta, filt, circle, out)
     if got.shape != ref.shape:
         return ("iradon-shape", "iradon_torch returned %s, scikit-image %s (N=%d circle=%s output_size=%s)"
@@ -410,7 +465,7 @@ def oracle_iradon(case):
     ok = well_conditioned(N, theta, circle, out)
     scale = max(float(np.abs(s).max()), 1e-30)
     d = np.where(ok, np.abs(got - ref), 0.0)
-    err = float(d.max()) if np.isfinite(got).all() else float("inf")
+    err = (float(d.max()) if d.size else 0.0) if np.isfinite(got).all() else float("inf")
     case["_excluded"] = int((~ok).sum())
     if not err <= IRADON_RTOL * scale:
         r, c = np.unravel_index(int(np.nanargmax(d)), d.shape)
@@ -473,10 +528,85 @@ def oracle_iradon_linear(case):
     return None
 
 
+# the caller of the two transforms (tomography_conv.py: TomographyConv._sirt_run_epoch, reached through the public
+# Tomography.from_data(...).sirt_recon(num_iterations=1)): the volume [cols, rows, rows] is forward projected as a
+# batch of `cols` images, the error sinograms [cols, A, rows] are back-projected as a batch with `filter_name`, and
+# normalised by the back-projection of ones with filter None.  Reference: the same composition with scikit-image.
+SIRT_MIN_NORM = 0.25
+
+
+def run_sirt_port(ts32, theta, vol32, filt):
+    import contextlib
+    import io
+    from quantem.tomography.tomography import Tomography
+    with contextlib.redirect_stderr(io.StringIO()), contextlib.redirect_stdout(io.StringIO()):
+        tomo = Tomography.from_data(tilt_series=ts32.copy(), tilt_angles=np.asarray(theta), volume_obj=vol32.copy(),
+                                    device="cpu")
+        tomo.sirt_recon(num_iterations=1, inline_alignment=False, enforce_positivity=False, reset=False,
+                        filter_name=filt, circle=True)
+    vol = tomo.sirt_recon_vol.obj.detach().cpu().numpy().astype(np.float64)      # permuted (1, 2, 0)
+    return np.transpose(vol, (2, 0, 1)), float(tomo.loss[-1])
+
+
+def run_sirt_sk(ts32, theta, vol32, filt):
+    _, radon, iradon, _, _ = _mods()
+    A, rows, cols = ts32.shape
+    th = np.asarray(theta, dtype=np.float64)
+    ref = np.zeros((cols, rows, rows))
+    ok = np.zeros((cols, rows, rows), dtype=bool)
+    errs = []
+    with warnings.catch_warnings():
+        warnings.simplefilter("ignore")
+        for z in range(cols):
+            sino = radon(vol32[z].astype(np.float64) * disc(rows), theta=th, circle=True)       # [rows, A]
+            err = ts32[:, :, z].astype(np.float64).T - sino
+            corr = iradon(err, theta=th, filter_name=filt, circle=True)
+            norm = iradon(np.ones_like(err), theta=th, filter_name=None, circle=True)
+            ok[z] = (norm == 0) | (norm >= SIRT_MIN_NORM)       # `normalization[normalization == 0] = 1e-6` is
+            norm[norm == 0] = 1e-6                                 # discontinuous at 0: compare away from it
+            ref[z] = vol32[z] + corr / norm
+            errs.append(np.abs(err))
+    return ref, ok, float(np.mean(errs)), float(np.max(errs))
+
+
+def oracle_sirt(case):
+    A, rows, cols, filt = case["A"], case["n"], case["B"], case["filter"]
+    g = np.random.default_rng(case["seed"])
+    theta = make_theta(case["theta_kind"], A, case["seed"])
+    if theta_dtype(case) == "float32":
+        theta = theta.astype(np.float32)
+    ts = g.uniform(0.0, 2.0, (A, rows, cols)).astype(np.float32)
+    vol = np.stack([make_image(["smooth", "noise", "binary"][z % 3], rows, case["seed"] + z) for z in range(cols)])
+    vol = np.abs(vol).astype(np.float32)
+    try:
+        got, loss = run_sirt_port(ts, theta, vol, filt)
+    except Exception as e:  # noqa
+        return ("sirt-raises", "Tomography.sirt_recon(num_iterations=1, filter_name=%r, circle=True) raised %r on a tilt "
+                "series %s with a %s volume" % (filt, e, ts.shape, vol.shape), {})
+    ref, ok, loss_ref, emax = run_sirt_sk(ts, theta, vol, filt)
+    if got.shape != ref.shape:
+        return ("sirt-shape", "SIRT volume has shape %s, expected %s" % (got.shape, ref.shape), {})
+    tol = 2 * IRADON_RTOL * emax / SIRT_MIN_NORM + RADON_RTOL * float(np.abs(vol).max())
+    d = np.where(ok, np.abs(got - ref), 0.0)
+    err = float(d.max()) if np.isfinite(got).all() else float("inf")
+    if not err <= tol:
+        z, r, c = np.unravel_index(int(np.nanargmax(d)), d.shape)
+        return ("sirt-epoch-vs-skimage",
+                "one SIRT epoch (tomography_conv.py: radon_torch of the volume, iradon_torch(error, filter %r) / "
+                "iradon_torch(ones, None)) differs from the same composition with scikit-image: tilt series %s, angles %s; "
+                "slice %d pixel (%d,%d) torch %.6g skimage %.6g (max error %.3g, tolerance %.3g)"
+                % (filt, ts.shape, _short_theta(theta), z, r, c, got[z, r, c], ref[z, r, c], err, tol), {"err": err})
+    if not abs(loss - loss_ref) <= 1e-4 * max(loss_ref, 1e-30):
+        return ("sirt-loss-vs-skimage", "SIRT loss %.8g differs from mean|tilt series - skimage.radon(volume)| = %.8g "
+                "(tilt series %s, angles %s)" % (loss, loss_ref, ts.shape, _short_theta(theta)), {})
+    case["_rel"] = err / max(emax, 1e-30)
+    return None
+
+
 ORACLES = {
     "radon": oracle_radon, "theta0": oracle_theta0, "radon-batch": oracle_radon_batch,
     "radon-linear": oracle_radon_linear, "filter": oracle_filter, "iradon": oracle_iradon,
-    "iradon-batch": oracle_iradon_batch, "iradon-linear": oracle_iradon_linear,
+    "iradon-batch": oracle_iradon_batch, "iradon-linear": oracle_iradon_linear, "sirt": oracle_sirt,
 }
 
 
@@ -572,6 +702,50 @@ def gen_oracle_cases(ctx: Ctx):
                           "sino_kind": SINO_KINDS[(N // 2 + rep) % 5], "theta_kind": tk,
                           "A": r.choice([1, 2, 3, 5, 9]) if N > 30 else r.choice([1, 2, 3, 5, 9, 16, N]),
                           "seed": r.randrange(1 << 30)})
+    # --- padded FFT size: sizes whose (padded) detector length is a power of two with a windowed filter
+    #     (the window is sampled on the padded size: any other padding changes the reconstruction) ...
+    WINDOWED = ["shepp-logan", "cosine", "hamming", "hann"]
+    for N, circle in ((22, True), (45, True), (32, False), (64, False)):
+        for j, f in enumerate(WINDOWED):
+            cases.append({"kind": "iradon", "N": N, "filter": f, "circle": circle, "out": None,
+                          "sino_kind": ["noise", "radon"][j % 2], "theta_kind": "uniform", "A": 6,
+                          "seed": r.randrange(1 << 30)})
+    #     ... and EVERY detector width up to 160 [400] with hann / hamming, circle and not (2 projections)
+    for N in range(1, ctx.budget(161, 401)):
+        for circle in (True, False):
+            if N == 1 and not circle:
+                continue                      # empty reconstruction (output size 0) in both libraries
+            cases.append({"kind": "iradon", "N": N, "filter": ["hann", "hamming"][(N + circle) % 2], "circle": circle,
+                          "out": None, "sino_kind": "delta", "theta_kind": "random", "A": 2, "sweep": True,
+                          "seed": r.randrange(1 << 30)})
+    # --- output_size LARGER than the detector (pixels beyond it get no contribution: np.interp left/right = 0)
+    for i in range(ctx.budget(14, 90)):
+        N = r.choice(sizes)
+        cases.append({"kind": "iradon", "N": N, "filter": FILTERS[i % 6], "circle": i % 2 == 0,
+                      "out": N + r.choice([1, 2, 3, 7, N]), "sino_kind": SINO_KINDS[i % 5],
+                      "theta_kind": THETA_KINDS[(i // 2) % 5], "A": r.choice([1, 2, 3, 5]), "seed": r.randrange(1 << 30)})
+    # --- how the angles are handed over: float64 tensor (not float32 representable), int64 tensor, repeated
+    #     angles; float64 images / sinograms
+    for i in range(ctx.budget(12, 90)):
+        tk = ["random64", "integers", "repeated"][i % 3]
+        cases.append({"kind": "radon", "n": r.choice(sizes), "img_kind": IMG_KINDS[i % 5], "theta_kind": tk,
+                      "A": r.choice([1, 2, 4, 7]), "seed": r.randrange(1 << 30)})
+        cases.append({"kind": "iradon", "N": r.choice(sizes), "filter": FILTERS[i % 6], "circle": i % 4 != 0, "out": None,
+                      "sino_kind": SINO_KINDS[i % 5], "theta_kind": tk, "A": r.choice([1, 2, 4, 7]),
+                      "seed": r.randrange(1 << 30)})
+    for i in range(ctx.budget(6, 40)):
+        tk = ["random64", "uniform", "random"][i % 3]
+        cases.append({"kind": "radon", "n": r.choice(sizes), "img_kind": IMG_KINDS[i % 5], "theta_kind": tk,
+                      "A": r.choice([1, 3, 5]), "dtype": "float64", "seed": r.randrange(1 << 30)})
+        cases.append({"kind": "iradon", "N": r.choice(sizes), "filter": FILTERS[i % 6], "circle": i % 3 != 0, "out": None,
+                      "sino_kind": SINO_KINDS[i % 5], "theta_kind": tk, "A": r.choice([1, 3, 5]), "dtype": "float64",
+                      "seed": r.randrange(1 << 30)})
+    # --- the caller (tomography_conv.py) against the same composition with scikit-image
+    for i in range(ctx.budget(6, 40)):
+        rows = [12, 9, 22, 16, 7, 31][i % 6] if i < 6 else r.choice(sizes[4:44])
+        cases.append({"kind": "sirt", "n": rows, "B": [3, 2, 1][i % 3], "A": r.choice([3, 4, 6]),
+                      "filter": ["hamming", "ramp", "hann", "cosine", "shepp-logan", None][i % 6],
+                      "theta_kind": ["random64", "random", "uniform"][i % 3], "seed": r.randrange(1 << 30)})
     for i in range(ctx.budget(12, 80)):
         cases.append({"kind": "iradon-batch", "N": r.choice(sizes[2:40]), "B": [1, 2, 3, 5][i % 4],
                       "filter": FILTERS[i % 6], "circle": i % 5 != 0, "theta_kind": r.choice(THETA_KINDS),
@@ -598,14 +772,17 @@ def check_oracle(ctx: Ctx):
         if kind == "filter":
             ctx.dist("filter/%s" % (case["filter"] or "none"))
             ctx.count(("filter", size, case["filter"]), nontrivial=case["filter"] is not None)
+        elif kind == "sirt":
+            ctx.dist("sirt/%s/%s" % (par, case["filter"] or "none"))
+            ctx.count((kind, size, case["B"], case["A"], case["filter"], case["theta_kind"], case["seed"]))
         elif kind.startswith("iradon"):
             ctx.dist("%s/%s/%s/%s" % (kind, par, case["filter"] or "none", "circle" if case["circle"] else "nocircle"))
             ctx.count((kind, size, case["filter"], case["circle"], case.get("out"), case["theta_kind"], case["A"],
-                       case.get("sino_kind"), case["seed"]), nontrivial=size >= 3)
+                       case.get("sino_kind"), case.get("dtype"), case["seed"]), nontrivial=size >= 3)
         else:
             ctx.dist("%s/%s/%s" % (kind, par, case.get("img_kind") or case.get("theta_kind")))
-            ctx.count((kind, size, case.get("img_kind"), case.get("theta_kind"), case.get("A"), case["seed"]),
-                      nontrivial=size >= 3)
+            ctx.count((kind, size, case.get("img_kind"), case.get("theta_kind"), case.get("A"), case.get("dtype"),
+                       case["seed"]), nontrivial=size >= 3)
         if res is not None:
             key, what, detail = res
             rank = (size < 8, size)      # report the smallest failing size >= 8 (smaller ones only if there is none)
@@ -627,6 +804,68 @@ def check_oracle(ctx: Ctx):
             % (len(cases), ", ".join("%s %d" % (k, sum(1 for c in cases if c["kind"] == k)) for k in ORACLES),
                len(fails), ctx.cov["worst_relative_error_seen"]))
     return fails
+
+
+def record_outside_domain(ctx: Ctx):
+    """behaviour OUTSIDE the property's quantified domain (square images, n >= 2, angles in [0, 180], tensors):
+    observed and recorded in the evidence, never judged"""
+    torch, radon, iradon, _, port = _mods()
+    rec = {}
+    g = np.random.default_rng(ctx.rng.randrange(1 << 30))
+
+    def attempt(f):
+        try:
+            return f()
+        except Exception as e:  # noqa
+            return "raises %s" % type(e).__name__
+
+    with warnings.catch_warnings():
+        warnings.simplefilter("ignore")
+        # n = 1: the reference itself is undefined (skimage.radon raises on a 1x1 image in circle mode)
+        rec["n=1 radon"] = {
+            "skimage": attempt(lambda: radon(np.ones((1, 1)), theta=[0.0, 30.0], circle=True).tolist()),
+            "radon_torch": attempt(lambda: str(port.radon_torch(torch.ones(1, 1), theta=torch.tensor([0.0, 30.0])).tolist()))}
+        # non-square images: both crop to the central square after masking with the disc of the full image
+        worst = 0.0
+        for shp in ((8, 12), (12, 8), (9, 12), (7, 10), (10, 7), (5, 6)):
+            im = g.uniform(size=shp).astype(np.float32)
+            th = np.array([0.0, 30.0, 90.0, 131.0])
+            H, W = shp
+            y, x = np.mgrid[:H, :W]
+            m = ((x - W // 2) ** 2 + (y - H // 2) ** 2) <= (min(H, W) // 2) ** 2
+            d = attempt(lambda: float(np.abs(
+                port.radon_torch(torch.from_numpy(im), theta=t_theta(th)).numpy().astype(np.float64)
+                - radon(im.astype(np.float64) * m, theta=th, circle=True).T).max()))
+            worst = d if isinstance(d, str) else max(worst, d) if not isinstance(worst, str) else worst
+        rec["non-square radon: max |radon_torch - skimage.radon(image * port's disc)|"] = worst
+        # angles outside [0, 180] (tilt series use negative tilt angles)
+        w1 = w2 = 0.0
+        for n in (9, 16, 22):
+            th = make_theta("outside", 6, int(g.integers(1 << 30)))
+            im = make_image("noise", n, int(g.integers(1 << 30)))
+            d = attempt(lambda: float(np.abs(run_radon_port(im, th)[0] - run_radon_sk(im, th)).max()) / (n * float(np.abs(im).max())))
+            sn = make_sino("noise", n, th, int(g.integers(1 << 30)))
+            ok = well_conditioned(n, th, True, None)
+            e = attempt(lambda: float(np.where(ok, np.abs(run_iradon_port(sn, th, "hann")[0] - run_iradon_sk(sn, th, "hann")), 0).max()
+                                      / np.abs(sn).max()))
+            w1 = d if isinstance(d, str) else (max(w1, d) if not isinstance(w1, str) else w1)
+            w2 = e if isinstance(e, str) else (max(w2, e) if not isinstance(w2, str) else w2)
+        rec["angles in [-180, 540]: radon error / (n max|img|), iradon error / max|sino|"] = [w1, w2]
+        # angle containers other than tensors
+        im = torch.ones(5, 5)
+        rec["theta as list"] = [attempt(lambda: tuple(port.radon_torch(im, theta=[0.0, 30.0]).shape)),
+                                attempt(lambda: tuple(port.iradon_torch(torch.ones(2, 5), theta=[0.0, 30.0]).shape))]
+        rec["theta as ndarray"] = [attempt(lambda: tuple(port.radon_torch(im, theta=np.array([0.0, 30.0])).shape)),
+                                   attempt(lambda: tuple(port.iradon_torch(torch.ones(2, 5), theta=np.array([0.0, 30.0])).shape))]
+        # result dtypes
+        rec["result dtype"] = {
+            "radon_torch(float32)": attempt(lambda: str(port.radon_torch(im, theta=torch.tensor([0.0])).dtype)),
+            "radon_torch(float64)": attempt(lambda: str(port.radon_torch(im.double(), theta=torch.tensor([0.0])).dtype)),
+            "iradon_torch(float64)": attempt(lambda: str(port.iradon_torch(torch.ones(2, 5).double(), theta=torch.tensor([0.0, 30.0])).dtype))}
+        rec["iradon_torch parameters"] = attempt(lambda: list(__import__("inspect").signature(port.iradon_torch).parameters))
+        rec["skimage.iradon parameters"] = attempt(lambda: list(__import__("inspect").signature(iradon).parameters))
+    ctx.cov["recorded_outside_domain"] = rec
+    ctx.log("recorded (outside the quantified domain, not judged): %s" % json.dumps(rec, default=str)[:900])
 
 
 # ------------------------------------------------------------------------------------------
@@ -677,20 +916,53 @@ def bilinear_colsum(img, X, Y):
     return v.sum(axis=0)
 
 
+IMG_DEN = 4096
+Q60 = float(1 << 60)
+
+
+def quantised_image(kind, n, seed):
+    """float32 image on the grid 1/4096 (exact in float32 and as a Coq rational) + its integer rows"""
+    z = np.rint(make_image(kind, n, seed).astype(np.float64) * IMG_DEN)
+    return (z / IMG_DEN).astype(np.float32), z.astype(np.int64)
+
+
+def cqrows(a):
+    return "[" + "; ".join("[" + "; ".join(cq(fr(x)) for x in row) + "]" for row in a) + "]"
+
+
+def cbrows(m):
+    return "[" + "; ".join("[" + "; ".join(cbool(bool(x)) for x in row) + "]" for row in m) + "]"
+
+
 def check_radon_corr(ctx: Ctx):
-    """the model's sample points (exact Q, the very cos/sin floats each library computes) -> bilinear
-    column sums of the model-masked image  vs  the sinograms of both implementations"""
+    """the WHOLE model evaluated in Coq (exact Q): `port_sinogram repaired bilinear` with the very float32 cos/sin
+    torch computes against radon_torch, `sk_sinogram bilinear (disc_mask ...)` with numpy's float64 cos/sin against
+    skimage.radon, `in_disc` against scikit-image's reconstruction circle — compared inside Coq, only booleans and
+    the largest deviation are printed (n up to 33 [64]).  For n <= 9 additionally the model's sample points are
+    printed and pushed through an independent NumPy bilinear column sum."""
     r = ctx.rng
     cases = []
-    ns = list(range(2, 17)) + ([] if ctx.quick else [21, 32, 33])   # printing n^2 points per angle dominates
+    ns = list(range(2, 17)) + [22, 33, 21, 32] + ([] if ctx.quick else [45, 48, 64])
     for i in range(ctx.budget(24, 150)):
         n = ns[i % len(ns)]
         tk = ["special", "random", "uniform", "ends"][i % 4]
         A = 2 if tk == "ends" else (r.choice([1, 2, 3]) if n <= 12 else 1)
         cases.append({"n": n, "theta_kind": tk, "A": A, "img_kind": IMG_KINDS[i % 5], "seed": r.randrange(1 << 30)})
     exprs = []
+    runs = []
     for c in cases:
+        n = c["n"]
         theta = make_theta(c["theta_kind"], c["A"], c["seed"])
+        img, z = quantised_image(c["img_kind"], n, c["seed"])
+        got, ref = run_radon_port(img, theta)[0], run_radon_sk(img, theta)
+        runs.append((theta, img, got, ref))
+        pc, sc = port_cs(theta), sk_cs(theta)
+        exprs.append("radcmp %s %d %s %s %s %s %s %s" % (cz(n), IMG_DEN, czrows(z), cangs(pc), cangs(sc),
+                                                        cqrows(got), cqrows(ref), cbrows(disc(n))))
+    small = [i for i, c in enumerate(cases) if c["n"] <= 9]
+    for i in small:
+        c = cases[i]
+        theta = runs[i][0]
         pc, sc = port_cs(theta), sk_cs(theta)
         exprs.append("(dmask %s, [%s], [%s])" % (
             cz(c["n"]),
@@ -704,46 +976,85 @@ def check_radon_corr(ctx: Ctx):
             tiny.append((n, a, b, rows))
             exprs.append("(rad_port %s 16 %s [(%s, %s)], pts_port %s %s %s, dmask %s)"
                          % (cz(n), czrows(rows), cq(a), cq(b), cz(n), cq(a), cq(b), cz(n)))
-    vals = ctx.coq_eval("radon", PRE, exprs, shard=max(1, len(exprs) // 14 + 1))
+    # big cases first within each shard would not balance: interleave by cost
+    order = sorted(range(len(exprs)), key=lambda i: -len(exprs[i]))
+    nsh = 12
+    shards = [order[k::nsh] for k in range(nsh)]
+    flat = [i for sh in shards for i in sh]
+    per = max(len(sh) for sh in shards)
+    # coq_eval shards consecutive chunks of `shard` expressions: pad every shard to the same length
+    padded = []
+    for sh in shards:
+        padded += [exprs[i] for i in sh] + ["tt"] * (per - len(sh))
+    out = ctx.coq_eval("radon", PRE, padded, shard=per, timeout=900)
+    vals = [None] * len(exprs)
+    pos = 0
+    for sh in shards:
+        for k, i in enumerate(sh):
+            vals[i] = out[pos + k]
+        pos += per
     nd = 0
-    for c, v in zip(cases, vals[:len(cases)]):
+    worst = [0.0, 0.0]
+    for idx, (c, v) in enumerate(zip(cases, vals[:len(cases)])):
         n = c["n"]
-        theta = make_theta(c["theta_kind"], c["A"], c["seed"])
-        img = make_image(c["img_kind"], n, c["seed"])
-        mask = np.array(v[0], dtype=bool)
-        img64 = img.astype(np.float64)
-        got, ref = run_radon_port(img, theta)[0], run_radon_sk(img, theta)
+        theta, img, got, ref = runs[idx]
         scale = n * max(float(np.abs(img).max()), 1e-30)
+        shapes, ep, es, mask_ok = v
+        e_port, e_sk = float(ep) / Q60, float(es) / Q60
         ctx.cov["traces_validated_against_impl"] += 2
         ctx.count(("radon-corr", n, c["theta_kind"], c["A"], c["seed"]), nontrivial=n >= 3)
         ctx.dist("corr-radon/%s" % ("even" if n % 2 == 0 else "odd"))
-        if not np.array_equal(mask, disc(n)):
+        worst = [max(worst[0], e_port / scale), max(worst[1], e_sk / scale)]
+        if not mask_ok:
             nd += 1
             ctx.violation("spec-model-correspondence", "in_disc differs from scikit-image's reconstruction circle, n=%d" % n,
                           {"kind": "radon-corr", "case": c}, found_input=False)
-        mp = np.stack([bilinear_colsum(img64 * mask, unq(P)[..., 0], unq(P)[..., 1]) for P in v[1]])
-        ms = np.stack([bilinear_colsum(img64 * mask, unq(P)[..., 0], unq(P)[..., 1]) for P in v[2]])
-        e_port = float(np.abs(mp - got).max())
-        e_sk = float(np.abs(ms - ref).max())
-        if not e_sk <= 1e-8 * scale:
+        if not shapes:
+            e_port = e_sk = float("inf")
+        if not e_sk <= 1e-11 * scale:      # exact model vs float64 (measured 6e-16)
             nd += 1
             ctx.violation("spec-model-correspondence",
-                          "the Coq transcription of skimage.radon's warp points (sk_point) + bilinear column sums and "
+                          "the Coq transcription of skimage.radon (sk_sinogram bilinear on the disc-masked image) and "
                           "skimage.radon disagree on a %dx%d %s image, angles %s: max difference %.3g"
                           % (n, n, c["img_kind"], _short_theta(theta), e_sk),
-                          {"kind": "radon-corr", "case": c, "model": ms.tolist(), "impl": ref.tolist()}, found_input=False)
+                          {"kind": "radon-corr", "case": c, "impl": ref.tolist()}, found_input=False)
         if not e_port <= RADON_RTOL * scale:
             nd += 1
             bad = oracle_radon(dict(c))
             ctx.cov["disagreements_checked"] += 1
             ctx.violation("radon-correspondence",
-                          "the model of radon_torch (port_point repaired with torch's float32 cos/sin, disc mask, bilinear "
-                          "column sums) and radon_torch disagree on a %dx%d %s image, angles %s: max difference %.3g — "
-                          "the Radon theorems no longer speak about this code"
+                          "the model of radon_torch (port_sinogram repaired bilinear, exact rationals, with torch's float32 "
+                          "cos/sin and the disc mask) and radon_torch disagree on a %dx%d %s image, angles %s: max "
+                          "difference %.3g — the Radon theorems no longer speak about this code"
                           % (n, n, c["img_kind"], _short_theta(theta), e_port),
+                          {"kind": "radon-corr", "case": c, "impl": got.tolist()},
+                          found_input=bad is not None)
+    for i, v in zip(small, vals[len(cases):len(cases) + len(small)]):
+        c = cases[i]
+        n = c["n"]
+        theta, img, got, ref = runs[i]
+        scale = n * max(float(np.abs(img).max()), 1e-30)
+        mask = np.array(v[0], dtype=bool)
+        img64 = img.astype(np.float64)
+        mp = np.stack([bilinear_colsum(img64 * mask, unq(P)[..., 0], unq(P)[..., 1]) for P in v[1]])
+        ms = np.stack([bilinear_colsum(img64 * mask, unq(P)[..., 0], unq(P)[..., 1]) for P in v[2]])
+        ctx.cov["traces_validated_against_impl"] += 2
+        if not (float(np.abs(ms - ref).max()) <= 1e-8 * scale and np.array_equal(mask, disc(n))):
+            nd += 1
+            ctx.violation("spec-model-correspondence",
+                          "the Coq transcription of skimage.radon's warp points (sk_point) + NumPy bilinear column sums and "
+                          "skimage.radon disagree on a %dx%d %s image, angles %s" % (n, n, c["img_kind"], _short_theta(theta)),
+                          {"kind": "radon-corr", "case": c, "model": ms.tolist(), "impl": ref.tolist()}, found_input=False)
+        if not float(np.abs(mp - got).max()) <= RADON_RTOL * scale:
+            nd += 1
+            bad = oracle_radon(dict(c))
+            ctx.cov["disagreements_checked"] += 1
+            ctx.violation("radon-correspondence",
+                          "the model's sample points of radon_torch (port_point repaired) + NumPy bilinear column sums and "
+                          "radon_torch disagree on a %dx%d %s image, angles %s" % (n, n, c["img_kind"], _short_theta(theta)),
                           {"kind": "radon-corr", "case": c, "model": mp.tolist(), "impl": got.tolist()},
                           found_input=bad is not None)
-    for (n, a, b, rows), v in zip(tiny, vals[len(cases):]):
+    for (n, a, b, rows), v in zip(tiny, vals[len(cases) + len(small):]):
         img = np.array(rows, dtype=np.float64) / 16.0
         P = unq(v[1])
         mirror = bilinear_colsum(img * np.array(v[2], dtype=bool), P[..., 0], P[..., 1])
@@ -753,9 +1064,13 @@ def check_radon_corr(ctx: Ctx):
             ctx.violation("spec-model-correspondence", "Coq `port_sinogram repaired bilinear` and the harness's bilinear "
                           "column sum over the model's points disagree (n=%d, c=%s, s=%s)" % (n, a, b),
                           {"kind": "radon-corr", "tiny": [n, str(a), str(b), rows]}, found_input=False)
-    ctx.sample({"kind": "radon-corr", "case": cases[3], "note": "model points -> sinograms within tolerance of both implementations"})
-    ctx.log("radon correspondence: %d cases x 2 implementations (+%d whole-model evaluations), %d disagreements"
-            % (len(cases), len(tiny), nd))
+    ctx.cov["worst_relative_error_seen"]["radon-corr (model vs radon_torch, model vs skimage)"] = [
+        float("%.3g" % worst[0]), float("%.3g" % worst[1])]
+    ctx.sample({"kind": "radon-corr", "case": cases[3], "note": "whole model evaluated in Coq within tolerance of both implementations"})
+    ctx.log("radon correspondence: %d cases x 2 implementations evaluated and compared in Coq (n up to %d; worst relative "
+            "deviation port %.2g, skimage %.2g), %d of them also through the model's sample points, +%d mirror "
+            "evaluations, %d disagreements" % (len(cases), max(c["n"] for c in cases), worst[0], worst[1], len(small),
+                                               len(tiny), nd))
 
 
 def _filter_from_probes(pr, ramp):
@@ -903,6 +1218,134 @@ def check_geometry_corr(ctx: Ctx):
     return geo, {A: unq(dp) for A, (dp, ds) in zip(As, dth)}
 
 
+# ------------------------------------------------------------------------------------------
+# the integer geometry of iradon_torch, read from the CURRENT source and tied to the model BY THEOREM
+
+
+def check_geometry_tie(ctx: Ctx, geo):
+    """harness/translate_C07.py -> build/C07/C07_Gen.v -> coq/gen_proofs/C07_GenProperties.v (fixed script):
+    filter size, detector padding, FFT padding and default output size of the source = the model's, for every N >= 1.
+    Fail closed: an unreadable source or a failing lemma is a broken obligation; a concrete detector width at which
+    the source's filter size differs from the model's is then searched and judged by the oracle."""
+    import re
+    import time
+    from .. import translate_C07 as T
+    from ..common import COQ, COQ_FLAGS, SRC, sh
+    t0 = time.time()
+    rec = {"script": "coq/gen_proofs/C07_GenProperties.v", "source": "tomography/radon/radon.py:iradon_torch"}
+    ctx.cov["source_geometry_tie"] = rec
+    problems = []
+    defs = None
+    try:
+        defs = T.translate(SRC / "quantem" / "tomography" / "radon" / "radon.py")
+        rec["translated"] = defs
+    except T.TranslateError as e:
+        problems.append("geometry tie: the translator (fail closed) rejected the source of iradon_torch: %s" % e)
+    except Exception as e:  # noqa
+        problems.append("geometry tie could not run: %r" % (e,))
+    tied = False
+    if defs is not None:
+        gen = ctx.dir / "C07_Gen.v"
+        for stale in (gen.with_suffix(".vo"), ctx.dir / "C07_GenProperties.vo"):
+            if stale.exists():
+                stale.unlink()
+        gen.write_text(T.emit(defs))
+        xflags = ["-Q", str(ctx.dir), "GenC07"]
+        script = COQ / "gen_proofs" / "C07_GenProperties.v"
+        bad = ctx.static_scan([gen, script])
+        if bad:
+            problems.append("forbidden declarations: %s" % bad[:5])
+        rc, out = sh(["timeout", "300", "coqc"] + COQ_FLAGS + xflags + [str(gen)], cwd=ctx.dir, timeout=330)
+        if rc != 0:
+            problems.append("geometry tie: generated file C07_Gen.v does not compile:\n" + "\n".join(out.strip().splitlines()[-8:]))
+        else:
+            saved_cmd, saved_problems = ctx.cov["checker_cmd"], ctx._proof_problems
+            ok = ctx.require_proofs(props_name="C07_GenProperties", props_path=script, extra_flags=xflags, make_targets=[])
+            if not ok:
+                msg = "; ".join(ctx._proof_problems)
+                m = re.search(r'line (\d+), characters', msg)
+                lem = ""
+                if m:
+                    for i, line in enumerate(script.read_text().splitlines(), 1):
+                        if i > int(m.group(1)):
+                            break
+                        mm = re.match(r"\s*(?:Lemma|Theorem)\s+(\w+)", line)
+                        if mm:
+                            lem = mm.group(1)
+                rec["broken_lemma"] = lem
+                problems.append("geometry tie: the integer geometry read from the current source of iradon_torch no longer "
+                                "equals the model (fixed proof script fails at `%s`): %s" % (lem, msg[:900]))
+            else:
+                tied = True
+            ctx.cov["checker_cmd"] = saved_cmd + "  ;  harness/translate_C07.py > build/C07/C07_Gen.v && coqc C07_Gen.v && " \
+                                                 "coqc coq/gen_proofs/C07_GenProperties.v"
+            ctx._proof_problems = saved_problems
+            # the source's filter size evaluated for N = 1..1024 against the model's: the first deviating width, if any
+            gpre = "From QV.lib Require Import Prelude.\nFrom QV.model Require Import C07_Model C07_Model_Ext.\n" \
+                   "From GenC07 Require Import C07_Gen.\nLocal Open Scope Z_scope.\n"
+            try:
+                dev = ctx.coq_eval("geomtie", gpre, [
+                    "(filter (fun N => negb (gen_filter_size_circle N =? padded_size (port_det_size repaired N true))) "
+                    "(map Z.of_nat (seq 1 1024)), filter (fun N => negb (gen_filter_size_nocircle N =? "
+                    "padded_size (port_det_size repaired N false))) (map Z.of_nat (seq 1 1024)), "
+                    "map gen_filter_size_circle (map Z.of_nat (seq 1 200)), map gen_filter_size_nocircle (map Z.of_nat (seq 1 200)))"],
+                    extra_flags=xflags)[0]
+                rec["deviating_widths_circle"], rec["deviating_widths_nocircle"] = list(dev[0])[:8], list(dev[1])[:8]
+                for circle, widths in ((True, dev[0]), (False, dev[1])):
+                    for N in list(widths)[:3]:
+                        case = {"kind": "iradon", "N": int(N), "filter": "hann", "circle": circle, "out": None,
+                                "sino_kind": "noise", "theta_kind": "uniform", "A": 6, "seed": 20240607}
+                        res = oracle_iradon(case)
+                        ctx.cov["disagreements_checked"] += 1
+                        if res is not None:
+                            ctx.violation("iradon-padded-size",
+                                          "the FFT length iradon_torch computes for %d detector pixels (circle=%s) is not "
+                                          "scikit-image's max(64, 2**ceil(log2(2 S))) and the reconstruction differs: %s"
+                                          % (N, circle, res[1]), {"kind": "oracle", "case": _public(case), **_concrete(case)})
+                            break
+                # translator cross-test: the sizes the translated expression gives are the sizes the running code passes to
+                # get_fourier_filter_torch (observed through the module attribute; skipped silently if the call is inlined)
+                torch, _, _, _, port = _mods()
+                orig = getattr(port, "get_fourier_filter_torch", None)
+                seen = []
+                if orig is not None:
+                    def spy(size, *a, **k):
+                        seen.append(int(size))
+                        return orig(size, *a, **k)
+                    port.get_fourier_filter_torch = spy
+                    try:
+                        n_x = bad_x = 0
+                        for circle, col in ((True, dev[2]), (False, dev[3])):
+                            for N, want in zip(range(1, 201), col):
+                                del seen[:]
+                                try:
+                                    port.iradon_torch(torch.zeros(1, N), theta=torch.zeros(1), circle=circle)
+                                except Exception:  # noqa
+                                    continue
+                                if len(seen) == 1:
+                                    n_x += 1
+                                    bad_x += seen[0] != int(want)
+                        rec["translator_cross_test"] = {"evaluations": n_x, "mismatches": bad_x}
+                        if bad_x:
+                            problems.append("geometry tie: translator cross-test: the filter size of the translated expression "
+                                            "differs from the size the running code uses on %d of %d widths" % (bad_x, n_x))
+                    finally:
+                        port.get_fourier_filter_torch = orig
+            except Exception as e:  # noqa
+                problems.append("geometry tie: evaluation of the generated functions failed: %r" % (e,))
+    rec["status"] = "tied by theorem" if (tied and not problems) else "broken"
+    rec["wall_s"] = round(time.time() - t0, 2)
+    if problems:
+        rec["problems"] = [p[:1200] for p in problems]
+        msg = "; ".join(problems)
+        ctx.broken_obligation = (ctx.broken_obligation + "; " + msg) if ctx.broken_obligation else msg
+        ctx.log("PROOF OBLIGATION BROKEN (geometry tie):", msg[:2000])
+    else:
+        ctx.log("geometry tie: filter size / detector padding / FFT padding / default output size of iradon_torch tied by "
+                "theorem to the current source for every N >= 1 (%s; %.1fs)" % (rec.get("translator_cross_test"), rec["wall_s"]))
+
+
+
 HK_BITS = 48
 
 
@@ -1029,12 +1472,28 @@ def run(ctx: Ctx):
     try:
         _mods()
         check_oracle(ctx)
+        try:
+            record_outside_domain(ctx)
+        except Exception as e:  # noqa  (never judged)
+            ctx.log("record_outside_domain failed: %r" % (e,))
     finally:
         th.join()
-    check_radon_corr(ctx)
-    check_filter_corr(ctx)
-    geo, dth = check_geometry_corr(ctx)
-    check_iradon_corr(ctx, geo, dth)
+    # the source-geometry tie (3 coqc runs) is independent of the correspondence runs: in parallel with them
+    def tie_job():
+        try:
+            check_geometry_tie(ctx, None)
+        except Exception as e:  # noqa  (fail closed)
+            msg = "geometry tie could not run: %r" % (e,)
+            ctx.broken_obligation = (ctx.broken_obligation + "; " + msg) if ctx.broken_obligation else msg
+    tie = threading.Thread(target=tie_job)
+    tie.start()
+    try:
+        check_radon_corr(ctx)
+        check_filter_corr(ctx)
+        geo, dth = check_geometry_corr(ctx)
+        check_iradon_corr(ctx, geo, dth)
+    finally:
+        tie.join()
 
 
 def replay(ctx: Ctx, path):
